@@ -251,7 +251,7 @@ CONF["C14"]["rule"] += " Every fault plan is run twice: the failing call returns
 CONF["C17"]["rule"] += " In 1/15 of the genesis cases one list has 101..125 entries (more than a default query page)."
 CONF["C18"]["rule"] += (" The second process also replays each history alone in a fresh process (against the parent, which has executed everything), from initial height 30000001 with other block "
                         "times and proposer (store root aside), and - directed histories with 16..256 required signatures, an adjacent duplicate at every position for the small ones - "
-                        "1.1 s later on one processor shared with 24 busy goroutines; a metamorphic replay without the failed multi-message transactions and a variant under other attester keys must agree as well.")
+                        "1.1 s later on one processor shared with 24 busy goroutines; a metamorphic replay without the failed multi-message transactions, replays with every transaction limited to exactly the gas it used (and +20000), the first transaction of every block in simulate mode, and a variant under other attester keys must agree as well.")
 CONF["C19"]["rule"] += " A registry is sometimes drained entry by entry; short hex spellings are asked right after an unrelated full-width token."
 CONF["C20"]["rule"] += (" Deterministic sweeps: one valid request of each of the 25 message types with every variable-length field resized to every length 0..72 (and 100..300), every account string replaced "
                         "by well-formed bech32 of 0..256 payload bytes (L1, a subset through L2); hex/denom arguments of the single-item queries at every length 0..140 with and without 0x/0X; "
